@@ -102,13 +102,13 @@ static void ref_schedule(lp_id_t receiver, simtime_t ts, unsigned type, const vo
 	if(size)
 		memcpy(m->pl, payload, size);
 	if(ref_cur_msg && !ref_before(ref_cur_msg, m)) {
-		fprintf(stderr, "MODEL-BUG: event scheduled not strictly after the current one (t=%g type=%u -> t=%g type=%u)\n",
-		    ref_cur_msg->dest_t, ref_cur_msg->m_type, ts, type);
-		abort();
+		sim_note("MODEL-BUG: event scheduled not strictly after the current one (t=%g type=%u -> t=%g type=%u)", ref_cur_msg->dest_t,
+		    ref_cur_msg->m_type, ts, type);
+		sim_finish("harness");
 	}
 	if(receiver >= (lp_id_t)P.n_lps) {
-		fprintf(stderr, "MODEL-BUG: bad receiver\n");
-		abort();
+		sim_note("MODEL-BUG: bad receiver");
+		sim_finish("harness");
 	}
 	/* sorted insertion: after every element that is not after the new one */
 	size_t lo = rq_head, hi = rq_n;
@@ -424,6 +424,27 @@ static unsigned pick_payload(unsigned char *buf, uint64_t r)
 
 static void topo_selfcheck(lp_id_t me);
 
+/* A zero-delay event is only valid if the runtime's own order puts it strictly after the event being handled; the order is taken
+ * from the code (it is the specification), so a tie-break that is changed consistently leaves the model valid. */
+static double valid_inc(double inc, unsigned cur_type, const void *cur_pl, unsigned cur_sz, unsigned new_type, const void *new_pl, unsigned new_sz)
+{
+	if(inc > 0.0)
+		return inc;
+	_Alignas(16) unsigned char a_l[sizeof(struct lp_msg) + MODEL_MAX_PL], b_l[sizeof(struct lp_msg) + MODEL_MAX_PL];
+	struct lp_msg *a = (struct lp_msg *)a_l, *b = (struct lp_msg *)b_l;
+	memset(a, 0, sizeof(*a));
+	memset(b, 0, sizeof(*b));
+	a->m_type = cur_type;
+	a->pl_size = cur_sz;
+	if(cur_sz)
+		memcpy(a->pl, cur_pl, cur_sz);
+	b->m_type = new_type;
+	b->pl_size = new_sz;
+	if(new_sz)
+		memcpy(b->pl, new_pl, new_sz);
+	return msg_is_before_extended(a, b) && !msg_is_before_extended(b, a) ? 0.0 : 0.5;
+}
+
 void model_dispatch(lp_id_t me, simtime_t now, unsigned type, const void *content, unsigned size, void *st)
 {
 	struct lp_state *s = st;
@@ -457,6 +478,8 @@ void model_dispatch(lp_id_t me, simtime_t now, unsigned type, const void *conten
 			if(P.m_ts == 2 && !P.m_init_t0)
 				t0 = 0.01 + (double)((s->xs >> 12) % 1000) / 100.0;
 			unsigned sz = pick_payload(pl, s->xs);
+			if(t0 == 0.0)
+				t0 = valid_inc(0.0, LP_INIT, NULL, 0, (unsigned)(j % 4), pl, sz);
 			ScheduleNewEvent(me, t0, (unsigned)(j % 4), pl, sz);
 			if(j == 0 && P.m_dest != 3 && ((s->xs >> 30) & 1)) {
 				s->xs = xs_next(s->xs);
@@ -489,12 +512,14 @@ void model_dispatch(lp_id_t me, simtime_t now, unsigned type, const void *conten
 	unsigned nt;
 	double inc = pick_inc(s, mix64(r, 3), type, &nt);
 	unsigned sz = pick_payload(pl, mix64(r, 4));
+	inc = valid_inc(inc, type, content, size, nt, pl, sz);
 	ScheduleNewEvent(me, now + inc, nt, pl, sz);
 	unsigned extra = P.m_fanout > 0 ? (unsigned)(mix64(r, 5) % (uint64_t)(P.m_fanout + 1)) : 0;
 	for(unsigned k = 0; k < extra; k++) {
 		uint64_t rr = mix64(r, 6 + k);
 		inc = pick_inc(s, rr, type, &nt);
 		sz = pick_payload(pl, mix64(rr, 9));
+		inc = valid_inc(inc, type, content, size, nt, pl, sz);
 		ScheduleNewEvent(pick_dest(me, mix64(rr, 11)), now + inc, nt, pl, sz);
 	}
 	eng_on_dispatch(me, now, type, content, size, st, false);
@@ -588,8 +613,8 @@ void model_setup(void)
 			break;
 	}
 	if(!g_topo) {
-		fprintf(stderr, "MODEL-BUG: topology init failed\n");
-		abort();
+		sim_note("MODEL-BUG: topology init failed");
+		sim_finish("harness");
 	}
 	if(P.m_topo == TOPOLOGY_GRAPH) {
 		struct sim_prng r;
@@ -686,8 +711,8 @@ void reference_run(void)
 			}
 		}
 		if(ref_total_events > 200000) {
-			fprintf(stderr, "MODEL-BUG: event population does not die out\n");
-			abort();
+			sim_note("MODEL-BUG: event population does not die out");
+			sim_finish("harness");
 		}
 	}
 	for(lp_id_t i = 0; i < n; i++)
